@@ -441,6 +441,7 @@ func writeEvidence(prop, tier string, seed int, results []*FuncResult, reps []*O
 			"obligations":              nObl,
 			"discharged":               nDis,
 			"checker_cmd":              fmt.Sprintf("/verif/bin/check %s %s", prop, tier),
+			"explanation":              fmt.Sprintf("%d obligations were generated from the current working tree of /repo for %d functions under contract (one SMT query per contract clause and path; layer F obligations are decided over SSA); %d discharged; obligations listed in known_findings.json (%d) are reported as KNOWN-FINDING and excluded from both counts; vacuity guards (cover/requires, cover/return, /cover) are obligations too", nObl, len(fns), nDis, nKnown),
 			"trusted_base":             trusted,
 			"functions_under_contract": fns,
 			"obligation_list":          reps,
